@@ -92,9 +92,9 @@ add("C15", "E5 sinkfault", "fault_enumeration", "deviation-bounded exhaustive ex
 add("C18", "E7 multiproc", "exploration", "exhaustive enumeration of a small input space x separately started processes, real uuid() vs an independent SHA-1 / RFC 4122 v5 implementation",
     "4430 inputs (all byte strings <=5 over {a,LF,CR,00,ff}; every length 0..200 and around every multiple of 64 up to 4 KiB; 1 MiB; corpus as is / CRLF / without final newline) compared with an independent SHA-1-based v5 computation (validated against FIPS 180 vectors), in the driver and in 6 (16) separately started processes, each starting with two threads racing on the lazily built namespace.",
     "Trusted: rustc/std; pgmc/src/sha1.rs. The function delegates to uuid/sha1_smol; weakest use of the technique in the set.", "DESIGN.md §4 C18")
-add("C20", "E6 sched", "model_checking", "exhaustive DFS (shuttle) over the schedules of real threads sharing one mapper/cache/mapping, scheduling point before every API step; plus a run-time auto-trait gate",
-    "Send+Sync table for 15 public handle/iterator/result types (a missing auto trait is a violation naming the type). All 256 ordered pairs of 16 API scripts x 3 steps (thorough: + all pairs x 5 steps, + 216 triples x 3 steps): every schedule is executed on fresh real objects and every thread must observe exactly what its script observes alone. A free-running OS-thread pass is labelled sampling.",
-    "Trusted: rustc/std auto traits; shuttle 0.9.3. /repo/src has no sync primitives: schedule points exist only between API steps (before each call / iterator step); intra-call interleavings rest on Send/Sync.", "DESIGN.md §4 C20")
+add("C20", "E6 sched", "model_checking", "exhaustive schedule exploration of real threads sharing one mapper/cache/mapping under three controlled schedulers: shuttle check_dfs and a baton scheduler over OS threads (scheduling point before every API step, all interleavings), and the wp scheduler (the shared objects are write-protected with mprotect; every store of the subject into them is a scheduling point inside the call, single-stepped via the x86 trap flag; preemption-bounded stateless DFS, bound 2 quick / 3 thorough); plus a run-time auto-trait gate and a call-history pass",
+    "Send+Sync table for 20 public handle/iterator/result types (a missing auto trait is a violation naming the type). All 256 ordered pairs of 16 API scripts x 3 steps + three 3-thread configurations (thorough: + all pairs x 5 steps, + 216 triples x 2 steps, six triples x 3 steps): every schedule is executed on fresh real objects and every thread must observe exactly what its script observes alone. wp reports how many locations of the shared objects are stored to during queries (0 on this tree: no thread can observe another one mid-call) and runs a canary (lost update on a racy counter must be found) in every run. A free-running OS-thread pass is labelled sampling.",
+    "Trusted: rustc/std auto traits; shuttle 0.9.3; pgmc/src/wp.rs + Linux mprotect / x86-64 trap-flag semantics. wp does not intercept the subject's own statics / thread-locals (reached at call granularity by the history pass and the baton scheduler) and explores sequentially consistent interleavings only.", "DESIGN.md §4 C20, §11.7")
 
 manifest = {
     "version": 1,
@@ -112,7 +112,7 @@ manifest = {
         {"name": "E3 tracespace", "path": "pgmc/src/props/e3.rs pgmc/src/props/c16.rs", "serves_properties": [i for i in C if C[i]["engine"].startswith("E3")],
          "kind_free_text": "DFS over trace texts, typed traces and descriptor strings; real code in every state; text / typed / descriptor models"},
         {"name": "E5 sinkfault", "path": "pgmc/src/props/c15.rs", "serves_properties": ["C15"], "kind_free_text": "deviation-bounded explorer over sink answer scripts"},
-        {"name": "E6 sched", "path": "pgmc/src/props/c20.rs", "serves_properties": ["C20"], "kind_free_text": "shuttle check_dfs over real threads + run-time Send/Sync gate"},
+        {"name": "E6 sched", "path": "pgmc/src/props/c20.rs", "serves_properties": ["C20"], "kind_free_text": "shuttle check_dfs + baton scheduler over OS threads + wp scheduler (pgmc/src/wp.rs: mprotect-based scheduling points at every store into the shared objects, preemption-bounded DFS) + run-time Send/Sync gate"},
         {"name": "E7 multiproc", "path": "pgmc/src/props/e7.rs", "serves_properties": ["C14", "C18"], "kind_free_text": "same deterministic enumeration in separately started processes with owned hash seeds (LD_PRELOAD getrandom shim); digests compared position-wise"},
         {"name": "E4 bytefault", "path": "pgmc/src/props/e4.rs", "serves_properties": [i for i in C if C[i]["engine"].startswith("E4")],
          "kind_free_text": "crash-point / corruption enumeration over cache files with an explicit deviation bound; real parser + queries on every faulted buffer"},
